@@ -104,4 +104,7 @@ REFACTORS = [
          "        if key_ not in _MEMO:\n            _MEMO.clear()\n            _MEMO[key_] = pickle.load(open(dataset_file_path, \"rb\"))\n"
          "        dataset = _MEMO[key_].copy()\n"),
         (B, "logger = logging.getLogger(__name__)\n", "logger = logging.getLogger(__name__)\n_MEMO = {}\n")]),
+    # a polling lock DIRECTORY with a 15-minute lease and a working take-over (the correct variant of seeded r10c19):
+    # after a kill inside the critical section a later load legitimately sleeps until the lease has run out
+    dict(id="r-lockdir-with-lease-recovery", props=["C19"], patch="selftest/patches/r-lockdir-with-lease-recovery.diff"),
 ]
